@@ -313,7 +313,7 @@ def rule_dep_order(P, which=("earley", "agenda", "solvers")):
             _, defs = _init_attr_def(P, cls, "order")
             if len(defs) != 1:
                 raise AnalysisError(f"{init.qual}: expected one definition of self.order")
-            base, parts = W.chain_of(defs[0].value)
+            base, parts = W.full_chain(init.node, defs[0].value, at=defs[0])
             if not parts or parts[-1] != "buckets" or len(parts) < 2:
                 raise AnalysisError(f"{init.qual}: self.order = `{norm(defs[0].value)}` is not <graph builder>().buckets")
             builder = parts[-2].rstrip("()")
